@@ -2,6 +2,8 @@ package slcheck
 
 import (
 	"fmt"
+	"os"
+	"runtime/debug"
 	"sort"
 	"sync"
 	"unsafe"
@@ -48,6 +50,9 @@ func newSLWorld(f *failer, mm bool, mode guard.Mode) *slWorld {
 			for n := (*skiplist.Node)(ref); n != nil; {
 				next := n.GetLink()
 				w.freed[n] = true
+				if os.Getenv("C15DBG") != "" {
+					fmt.Printf("C15DBG free node %p key=%d level=%d\n", n, skiplist.IntFromItem(n.Item()), n.Level())
+				}
 				w.sl.FreeNode(n, &w.sl.Stats)
 				n = next
 			}
@@ -250,6 +255,16 @@ func fmtSLScripts(scripts [][]slOp) string {
 
 // walkCheck runs the C14 predicate (structure + statistics) at a quiescent point.
 func (w *slWorld) walkCheck(sigPrefix string) *walk.Result {
+	debug.SetPanicOnFault(true)
+	defer func() {
+		if r := recover(); r != nil {
+			type addrer interface{ Addr() uintptr }
+			if a, ok := r.(addrer); ok && w.arena != nil {
+				w.f.failf("freed-but-linked", "the structural walk at quiescence read freed memory: a node still reachable from head has been returned to the allocator: %s", w.arena.Describe(a.Addr()))
+			}
+			panic(r)
+		}
+	}()
 	res, err := walk.Walk(w.sl, skiplist.CompareInt)
 	if err != nil {
 		w.f.failf(sigPrefix+"structure", "%v", err)
